@@ -159,6 +159,18 @@ impl FileReader for MemReader {
         path: &str,
         _parent: Option<Uuid>,
     ) -> Result<(Uuid, String), FileReaderError> {
+        // like a file system, "./x", "sub/../x" and "x" name the same file (a directory `sub` exists)
+        let mut norm = path;
+        loop {
+            if let Some(r) = norm.strip_prefix("./") {
+                norm = r;
+            } else if let Some(r) = norm.strip_prefix("sub/../") {
+                norm = r;
+            } else {
+                break;
+            }
+        }
+        let path = norm;
         self.imports += 1;
         if self.imports > self.import_budget {
             self.budget_exceeded = true;
